@@ -20,6 +20,9 @@ The oracle is written from the property statement and does not look at rich's No
   c16.cycle_ellipsis          a container met again on the path from the root is shown as "..." and the walk terminates;
                               a merely shared (acyclic) container is shown in full every time
   c16.max_length_count        a container of n > max_length items shows its first max_length items and "... +{n-max_length}"
+  c16.same_after_abandoned_call  "for every value": the result does not depend on what was printed before - a call abandoned
+                              by a BaseException from some __repr__ (Ctrl-C while a value is displayed) leaves the next
+                              pretty_repr of the same containers unchanged (lists and dicts, every third value)
   c16.max_string_count        a str / bytes of n > max_string characters shows repr(s[:max_string]) followed by
                               "+{n-max_string}"
 
@@ -48,8 +51,18 @@ MAX_PER_CLAUSE = 3
 CLAUSES = (
     "c16.no_exception", "c16.eval_roundtrip", "c16.single_line_when_fits", "c16.expanded_layout",
     "c16.inline_only_if_fits", "c16.expand_all", "c16.item_text", "c16.cycle_ellipsis",
-    "c16.max_length_count", "c16.max_string_count",
+    "c16.max_length_count", "c16.max_string_count", "c16.same_after_abandoned_call",
 )
+
+
+class _Abandon(BaseException):
+    """stands for KeyboardInterrupt / SystemExit raised while some object's __repr__ runs"""
+
+
+class _Interrupting:
+    def __repr__(self):
+        raise _Abandon()
+
 
 BASIC5 = (list, tuple, dict, set, frozenset)
 CONTAINERS = (list, tuple, dict, set, frozenset, deque, Counter, defaultdict, array)
@@ -803,6 +816,27 @@ def _work(args):
             n_extra = 4
         vkey = recipe or _value_key(obj)
         nt = nontrivial(obj)
+        if type(obj) in (list, dict) and idx % 3 == 1:
+            counts["c16.same_after_abandoned_call"] += 1
+            before = pretty_repr(obj, max_width=30)
+            if type(obj) is list:
+                obj.append(_Interrupting())
+            else:
+                obj["\0interrupt"] = _Interrupting()
+            try:
+                pretty_repr(obj, max_width=30)
+            except _Abandon:
+                pass
+            finally:
+                if type(obj) is list:
+                    obj.pop()
+                else:
+                    del obj["\0interrupt"]
+            after = pretty_repr(obj, max_width=30)
+            if after != before:
+                f = {"clause": "c16.same_after_abandoned_call", "what": "pretty_repr of the same value differs after an earlier call on it was abandoned by a BaseException raised in an element's __repr__",
+                     "expected": before[:300], "observed": after[:300]}
+                raw_fail[f["clause"]].append((obj, Cfg(30, 4), f, recipe, True, "abandoned"))
         for cfg in configs_for(rng, obj, n_extra):
             evaluations += 1
             fails = check_case(pretty_repr, obj, cfg, counts, cyclic)
